@@ -5,7 +5,10 @@ Driver for property C16: `kitdrv C16` reads one case per line and answers one li
 
   case kind=limit|multi|tee ver=fixed|orig n=<int> wcap=<nat|-> wclos=0|1
        srcs=<src>|<src>…  ops=<op>,<op>,…
-  <src> = <hex content>:<cap.cap.…>:<withData 0|1>:<term e|b>:<closable 0|1>
+       [rf=<n>]   writer implements io.ReaderFrom with buffer size n (0/absent: it does not)
+       [hist=<call>;<call>…]   kind=tee only: a concurrent history to linearize (see below)
+  <src> = <hex content>:<cap.cap.…>:<withData 0|1>:<term e|b|h>:<closable 0|1>[:<hasWriteTo 0|1>]
+          (term h = http.ErrBodyReadAfterClose)
   <op>  = r<m>                 one Read with len(p)=m
         | d<dflt>:<b1>.<b2>…   consume until the first error (buffer sizes b1,b2,… then dflt)
         | w                    WriteTo(writer)   (multi only: the io.Copy path)
@@ -14,19 +17,28 @@ Driver for property C16: `kitdrv C16` reads one case per line and answers one li
 
 Answer: `ok ops=<res>,<res>… closes=<c1>.<c2>… wgot=<hex> wcl=<n>` where
   <res> = r:<hex>:<err> | d:<hex>:<err> | w:<err> | c | s
+With `hist=`: <call> = <invoke time>/<return time>/<op>/<observed result>, ops r<m> | c | s, results
+as above.  The answer is `ok lin=1 closes=… wgot=… wcl=…` if the calls can be put in an order that
+respects real time (a call that returned before another was invoked comes first) such that running
+`Tee.apply` in that order yields every observed result — i.e. the real execution is a run of
+`TeeConc` — and `ok lin=0` otherwise.
 Everything is computed by the definitions of `KitModel/Streams.lean` the theorems are about.
 -/
 namespace Driver.C16
 open Kit Kit.Streams
 
+def parseSrcFields (hx sc wd tm cl wt : String) : Option Src := do
+  let content ← fromHex hx
+  let script ← if sc == "" then some [] else (sc.splitOn ".").mapM String.toNat?
+  let term ← (if tm == "e" then some Err.eof else if tm == "b" then some Err.boom
+              else if tm == "h" then some Err.bodyClosed else none)
+  some { rest := content, script := script, withData := wd == "1", term := term,
+         closable := cl == "1", closes := 0, hasWriteTo := wt == "1" }
+
 def parseSrc (s : String) : Option Src :=
   match s.splitOn ":" with
-  | [hx, sc, wd, tm, cl] => do
-    let content ← fromHex hx
-    let script ← if sc == "" then some [] else (sc.splitOn ".").mapM String.toNat?
-    let term ← (if tm == "e" then some Err.eof else if tm == "b" then some Err.boom else none)
-    some { rest := content, script := script, withData := wd == "1", term := term,
-           closable := cl == "1", closes := 0 }
+  | [hx, sc, wd, tm, cl] => parseSrcFields hx sc wd tm cl "0"
+  | [hx, sc, wd, tm, cl, wt] => parseSrcFields hx sc wd tm cl wt
   | _ => none
 
 def parseSrcs (s : String) : Option (List Src) :=
@@ -91,6 +103,55 @@ def finalState : St → String
   | .multi M w => s!"closes={".".intercalate (M.closeCounts.map toString)} wgot={toHex w.got} wcl={w.closes}"
   | .tee t => s!"closes={t.src.closes} wgot={toHex t.w.got} wcl={t.w.closes}"
 
+/-! ### linearizability of a concurrent Tee history against `Tee.apply` -/
+
+structure Call where
+  inv : Nat
+  ret : Nat
+  op : TeeOp
+  res : String
+
+def parseTeeOp (s : String) : Option TeeOp :=
+  match s.toList with
+  | ['c'] => some .close
+  | ['s'] => some .stop
+  | 'r' :: rest => (String.ofList rest).toNat?.map .read
+  | _ => none
+
+def parseCall (s : String) : Option Call :=
+  match s.splitOn "/" with
+  | [i, r, op, res] => do
+    some { inv := ← i.toNat?, ret := ← r.toNat?, op := ← parseTeeOp op, res := res }
+  | _ => none
+
+def showTeeRes (op : TeeOp) (d : Bytes) (e : Option Err) : String :=
+  match op with
+  | .read _ => showRead "r" d (showErr e)
+  | .close => "c"
+  | .stop => "s"
+
+def teeFinal (t : Tee) : String := s!"closes={t.src.closes} wgot={toHex t.w.got} wcl={t.w.closes}"
+
+/-- depth-first search for a linearization; `fuel` = number of calls still to place.  Returns the
+final state of the first linearization found. -/
+def linearize : Nat → Tee → List Call → Option Tee
+  | 0, t, rem => if rem.isEmpty then some t else none
+  | fuel + 1, t, rem =>
+    if rem.isEmpty then some t else
+    -- a call may come next iff no other remaining call returned before it was invoked
+    let minRet := rem.foldl (fun m c => min m c.ret) (rem.headD ⟨0, 0, .close, ""⟩).ret
+    let cands := (List.range rem.length).filter fun i =>
+      match rem[i]? with
+      | some c => c.inv < minRet || c.ret == minRet
+      | none => false
+    cands.firstM fun i =>
+      match rem[i]? with
+      | none => none
+      | some c =>
+        match t.apply c.op with
+        | (t', d, e) =>
+          if showTeeRes c.op d e == c.res then linearize fuel t' (rem.eraseIdx i) else none
+
 def answer (line : String) : String :=
   let l := parseLine line
   if l.op != "case" then "bad op" else
@@ -107,12 +168,21 @@ def answer (line : String) : String :=
       | none => some none
       | some "-" => some none
       | some s => s.toNat?.map some)
-    let w : Wr := { got := [], cap := wcap, closable := (l.get? "wclos") == some "1", closes := 0 }
+    let w : Wr := { got := [], cap := wcap, closable := (l.get? "wclos") == some "1", closes := 0,
+                    readFromBuf := (l.nat? "rf").getD 0 }
     let st ← (match kind, srcs with
       | "limit", [s] => do let n ← l.int? "n"; some (St.limit (Limit.new s n))
       | "multi", ss => some (St.multi (Multi.new ss) w)
       | "tee", [s] => some (St.tee (Tee.new s w))
       | _, _ => none)
+    match l.get? "hist", st with
+    | some h, .tee t =>
+      let calls ← (if h == "" then some [] else (h.splitOn ";").mapM parseCall)
+      match linearize calls.length t calls with
+      | some t' => some s!"ok lin=1 {teeFinal t'}"
+      | none => some "ok lin=0"
+    | some _, _ => none
+    | none, _ =>
     let (st', rs) := runOps v st ops []
     some s!"ok ops={",".intercalate rs} {finalState st'}"
   r.getD "bad case"
